@@ -97,7 +97,7 @@ class RuntimeV1_0(Runtime):
         # We also compute what types of events can trigger this flow, in addition
         # to the default ones.
         for element in elements:
-            if element.get("UtteranceUserActionFinished"):
+            if element.get("_type") == "UtteranceUserActionFinished":
                 self.flow_configs[flow_id].trigger_event_types.append(
                     "UtteranceUserActionFinished"
                 )
